@@ -32,7 +32,7 @@ extern "C" {
 double g_ma[MSZ]; double g_mb[MSZ]; double g_mc[MSZ];
 long r_calls; char r_ta, r_tb; long r_m, r_n, r_k, r_lda, r_ldb, r_ldc, r_incx, r_incy; double const* r_a; double const* r_b; double* r_c; double r_alpha, r_beta;
 int r_which; char r_side, r_diag;
-std::complex<double> g_za[MSZ]; std::complex<double> g_zc[MSZ]; std::complex<double> const* r_za; std::complex<double>* r_zc;
+std::complex<double> g_za[MSZ]; std::complex<double> g_zc[MSZ]; std::complex<double> const* r_za; std::complex<double>* r_zc; std::complex<double> g_zb[MSZ]; std::complex<double> const* r_zb; double r_ai, r_bi;
 void dgemm_(char const& ta, char const& tb, INT const& m, INT const& n, INT const& k, double const& alpha, double const* A, INT const& lda, double const* B, INT const& ldb, double const& beta, double const* C, INT const& ldc) {
   ++r_calls; r_which = 1; r_ta = ta; r_tb = tb; r_m = m; r_n = n; r_k = k; r_lda = lda; r_ldb = ldb; r_ldc = ldc; r_a = A; r_b = B; r_c = const_cast<double*>(C); r_alpha = alpha; r_beta = beta; }
 void dgemv_(char const& t, INT const& m, INT const& n, double const& alpha, double const* A, INT const& lda, double const* X, INT const& incx, double const& beta, double* Y, INT const& incy) {
@@ -50,6 +50,8 @@ void dtrsm_(char const& side, char const& uplo, char const& t, char const& diag,
   ++r_calls; r_which = 12; r_side = side; r_ta = uplo; r_tb = t; r_diag = diag; r_m = m; r_n = n; r_alpha = alpha; r_a = A; r_lda = lda; r_c = const_cast<double*>(B); r_ldb = ldb; }
 void zherk_(char const& uplo, char const& t, INT const& n, INT const& k, double const& alpha, std::complex<double> const* A, INT const& lda, double const& beta, std::complex<double>* C, INT const& ldc) {
   ++r_calls; r_which = 13; r_ta = uplo; r_tb = t; r_n = n; r_k = k; r_za = A; r_lda = lda; r_zc = C; r_ldc = ldc; r_alpha = alpha; r_beta = beta; }
+void zgemm_(char const& ta, char const& tb, INT const& m, INT const& n, INT const& k, std::complex<double> const& alpha, std::complex<double> const* A, INT const& lda, std::complex<double> const* B, INT const& ldb, std::complex<double> const& beta, std::complex<double> const* C, INT const& ldc) {
+  ++r_calls; r_which = 14; r_ta = ta; r_tb = tb; r_m = m; r_n = n; r_k = k; r_lda = lda; r_ldb = ldb; r_ldc = ldc; r_za = A; r_zb = B; r_zc = const_cast<std::complex<double>*>(C); r_alpha = alpha.real(); r_beta = beta.real(); r_ai = alpha.imag(); r_bi = beta.imag(); }
 INT idamax_(INT const& n, double const* x, INT const& incx) { ++r_calls; r_which = 10; r_n = n; r_a = x; r_incx = incx; return 2; }   // 1-based position 2
 }
 static auto mk2(double* p, L s0, L s1, L n0, L n1) {
@@ -65,9 +67,8 @@ static void mat_layout(L rows, L cols, L& s0, L& s1) {
 static L opaddr(char t, L ld, L r, L c) { return t == 'N' ? r + c * ld : c + r * ld; }   // element (r,c) of op(X), column-major with leading dimension ld
 static L maxl(L a, L b) { return a > b ? a : b; }
 
-// KNOWN FINDING C13-gemm-unit-extent (known_findings.json): when one of M, N, K is 1 gemm_n's special cases take leading dimensions from
-// sizes instead of strides.  The entries gemm_l<layout> exclude that region and must be proved; the twins gemm_unit_l<layout> are restricted
-// to the region, are expected to fail there, and are reported as KNOWN-FINDING only if the solver's counterexample reproduces on the real build.
+// gemm_l<layout>: no extent equals 1; gemm_unit_l<layout>: at least one of M, N, K is 1 (formerly the known finding C13-gemm-unit-extent, fixed in /repo;
+// kept as a separate query: it is the region where leading dimensions and strides decouple).
 // LAYOUT = 3 bits (A, B, C): 1 = row-major, 0 = column-major; compile-time so that each of the eight layout branches of gemm_n is one query
 static void mat_layout_fixed(int rowmajor, L rows, L cols, L& s0, L& s1) { L pad = vf_range(0, PAD); if(rowmajor) { s1 = 1; s0 = cols + pad; } else { s0 = 1; s1 = rows + pad; } }
 template<bool UnitExtent, int LAYOUT> static void t_gemm() {   // C = alpha*A*B + beta*C, A MxK, B KxN, C MxN
@@ -285,3 +286,51 @@ template<int LAYOUT, int FORM> static void t_herk_conj() {   // FORM 0: H(a), 1:
 }
 #define HC(LY) VF_HARNESS(herkH_l##LY) { t_herk_conj<LY, 0>(); } VF_HARNESS(herkJ_l##LY) { t_herk_conj<LY, 1>(); }
 HC(0) HC(1) HC(2) HC(3)
+
+// gemm on complex<double> with conjugated factors: C = alpha*A*B + beta*C with A = a or J(a) (element-wise conjugate view), B = b or J(b); every
+// storage order of a, b, C (compile-time LAYOUT as for dgemm).  H(x) is J of the other storage order of x, so the hermitian forms are included.
+// zgemm computes C' = alpha op(A') op(B') + beta C'; op 'N': X'(r,c), 'T': X'(c,r), 'C': conj(X'(c,r)).  The call denotes the user's product iff
+// (direct) C' = C, op(A')(i,l) is the element A(i,l) lives in with the same conjugation, op(B')(l,j) likewise; or (transposed) C' = C^T,
+// op(A')(j,l) = B(l,j), op(B')(l,i) = A(i,l), again with matching conjugation.  Anything else must be rejected (logic_error or assert(0)).
+static L zaddr(char t, L ld, L r, L c) { return t == 'N' ? r + c * ld : c + r * ld; }
+template<int LAYOUT, int SA, int SB> static void t_zgemm() {
+  L M = vf_range(1, NB); L N = vf_range(1, NB); L K = vf_range(1, NB);
+  L as0, as1, bs0, bs1, cs0, cs1; mat_layout_fixed((LAYOUT >> 2) & 1, M, K, as0, as1); mat_layout_fixed((LAYOUT >> 1) & 1, K, N, bs0, bs1); mat_layout_fixed(LAYOUT & 1, M, N, cs0, cs1);
+  L oa = vf_range(0, 3); L ob = vf_range(0, 3); L oc = vf_range(0, 3);
+  auto a = mkz(g_za + oa, as0, as1, M, K); auto b = mkz(g_zb + ob, bs0, bs1, K, N); auto C = mkz(g_zc + oc, cs0, cs1, M, N);
+  std::complex<double> const alpha{2.0, 0.5}; std::complex<double> const beta{3.0, 0.25};
+  bool rejected = false;
+  try {
+    if constexpr(SA == 0 && SB == 0) { multi::blas::gemm(alpha, a, b, beta, C); }
+    else if constexpr(SA == 0 && SB == 1) { multi::blas::gemm(alpha, a, multi::blas::J(b), beta, C); }
+    else if constexpr(SA == 1 && SB == 0) { multi::blas::gemm(alpha, multi::blas::J(a), b, beta, C); }
+    else { multi::blas::gemm(alpha, multi::blas::J(a), multi::blas::J(b), beta, C); }
+  } catch(...) { rejected = true; }
+  if(!rejected) {
+    vf_assert(r_calls == 1 && r_which == 14, "exactly one zgemm call");
+    vf_assert((r_ta == 'N' || r_ta == 'T' || r_ta == 'C') && (r_tb == 'N' || r_tb == 'T' || r_tb == 'C'), "transposition flags are valid");
+    vf_assert(r_m >= 0 && r_n >= 0 && r_k == K, "dimensions are valid and k is the contracted dimension");
+    vf_assert(r_lda >= (r_ta == 'N' ? maxl(1, r_m) : maxl(1, r_k)), "lda satisfies the BLAS precondition (else xerbla)");
+    vf_assert(r_ldb >= (r_tb == 'N' ? maxl(1, r_k) : maxl(1, r_n)), "ldb satisfies the BLAS precondition (else xerbla)");
+    vf_assert(r_ldc >= maxl(1, r_m), "ldc satisfies the BLAS precondition (else xerbla)");
+    vf_assert(r_alpha == 2.0 && r_ai == 0.5 && r_beta == 3.0 && r_bi == 0.25, "alpha and beta are passed unchanged (not conjugated)");
+    L i = vf_range(0, NB - 1); L j = vf_range(0, NB - 1); L l = vf_range(0, NB - 1); vf_assume(i < M && j < N && l < K);
+    L i2 = vf_range(0, NB - 1); L j2 = vf_range(0, NB - 1); L l2 = vf_range(0, NB - 1); vf_assume(i2 < M && j2 < N && l2 < K);
+    bool a_is_B = vf_within(r_za, g_zb, sizeof g_zb), b_is_A = vf_within(r_zb, g_za, sizeof g_za), a_is_A = vf_within(r_za, g_za, sizeof g_za), b_is_B = vf_within(r_zb, g_zb, sizeof g_zb);
+    bool c_ok = vf_within(r_zc, g_zc, sizeof g_zc);
+    bool const ca = r_ta == 'C', cb = r_tb == 'C';
+    bool Tf = c_ok && a_is_B && b_is_A && r_m == N && r_n == M && ca == (SB == 1) && cb == (SA == 1)
+      && (r_zc - g_zc) + zaddr('N', r_ldc, j, i) == oc + i * cs0 + j * cs1
+      && (r_za - g_zb) + zaddr(r_ta, r_lda, j, l) == ob + l * bs0 + j * bs1
+      && (r_zb - g_za) + zaddr(r_tb, r_ldb, l, i) == oa + i * as0 + l * as1;
+    bool Df = c_ok && a_is_A && b_is_B && r_m == M && r_n == N && ca == (SA == 1) && cb == (SB == 1)
+      && (r_zc - g_zc) + zaddr('N', r_ldc, i2, j2) == oc + i2 * cs0 + j2 * cs1
+      && (r_za - g_za) + zaddr(r_ta, r_lda, i2, l2) == oa + i2 * as0 + l2 * as1
+      && (r_zb - g_zb) + zaddr(r_tb, r_ldb, l2, j2) == ob + l2 * bs0 + j2 * bs1;
+    vf_assert(Tf || Df, "the recorded zgemm arguments denote C(i,j), A(i,l), B(l,j) with their conjugations for every index triple (direct or transposed form)");
+    vf_reach("zgemm accepted");
+  }
+}
+#define ZG(LY, SA, SB) VF_HARNESS(zgemm_s##SA##SB##_l##LY) { t_zgemm<LY, SA, SB>(); }
+#define ZG8(SA, SB) ZG(0, SA, SB) ZG(1, SA, SB) ZG(2, SA, SB) ZG(3, SA, SB) ZG(4, SA, SB) ZG(5, SA, SB) ZG(6, SA, SB) ZG(7, SA, SB)
+ZG8(0, 0) ZG8(0, 1) ZG8(1, 0) ZG8(1, 1)
